@@ -414,6 +414,8 @@ bool ManifestParser::ParseEdge(string* err) {
     if (new_end != edge->inputs_.end()) {
       edge->inputs_.erase(new_end, edge->inputs_.end());
       edge->order_only_deps_ -= removed_order_only;
+      // The statement no longer consumes its own output.
+      out->RemoveOutEdge(edge);
       if (!quiet_) {
         Warning("phony target '%s' names itself as an input; "
                 "ignoring [-w phonycycle=warn]",
